@@ -1030,9 +1030,33 @@ pub fn explore<F: FmtX, A: Atomicity>(
         dfs::<F, A>(ctx, &job, &ops, pre, &mut seq, ladder_depth, mon, cnt, &mut sh);
         cnt.shapes.lock().unwrap().extend(sh);
     });
+    // big ladder: lengths around the powers of two up to 256 Ki (4 Mi thorough), one further operation
+    // (allocator thresholds and growth rounding far above anything a depth-bounded search builds up)
+    let big: Vec<u32> = if ladder_depth >= 2 {
+        let top = if ctx.tier == Tier::Thorough { 22 } else { 18 };
+        let mut v = vec![];
+        for k in 12..=top {
+            let p = 1u32 << k;
+            for d in [-17i64, -16, -15, -9, -8, -1, 0, 1] {
+                v.push((p as i64 + d) as u32);
+            }
+        }
+        v
+    } else {
+        vec![]
+    };
+    let btasks: Vec<(u32, usize)> = big.iter().flat_map(|&n| (0..4usize).map(move |p| (n, p))).collect();
+    btasks.par_iter().for_each(|&(n, p)| {
+        let mut sh = BTreeSet::new();
+        let pre = &ladder_prefixes(n)[p];
+        let mut seq = vec![];
+        dfs::<F, A>(ctx, &job, &ops, pre, &mut seq, 1, mon, cnt, &mut sh);
+        cnt.shapes.lock().unwrap().extend(sh);
+    });
     let e3 = cnt.execs.load(Ordering::Relaxed);
     json!({
         "job": job, "alphabet": ops.len(), "depth": depth, "witness_prefixes": ws.len(), "witness_depth": wdepth,
+        "big_ladder_lengths": big.len(),
         "sequences_from_empty": e1 - e0, "sequences_from_witnesses": e2 - e1,
         "ladder_lengths": lad.len(), "ladder_depth": ladder_depth, "sequences_from_ladder": e3 - e2,
         "secs": (t0.elapsed().as_secs_f64() * 100.0).round() / 100.0,
